@@ -24,6 +24,7 @@
 from __future__ import annotations
 
 import re
+import unicodedata
 from functools import lru_cache
 from typing import Dict, Iterator, List, Optional, Sequence, Type, Union
 
@@ -40,6 +41,8 @@ class SubstratePathConst:
 
     # Encoded element maximum length in bytes
     ENCODED_ELEM_MAX_BYTE_LEN: int = 32
+    # Maximum number of significant decimal digits of an integer element (2^256 - 1 has 78 digits)
+    INT_ELEM_MAX_DIGITS: int = 78
     # Regex for path
     RE_PATH: str = r"\/+[^/]+"
 
@@ -145,7 +148,15 @@ class SubstratePathElem:
 
         # Integer
         if self.m_elem.isdecimal():
-            bit_len = int(self.m_elem).bit_length()
+            # Redundant leading zeros are allowed; a number with more significant digits than 2^256 is too big
+            # (and the interpreter refuses to convert very long decimal strings at all)
+            first_sig = 0
+            while first_sig < len(self.m_elem) - 1 and unicodedata.decimal(self.m_elem[first_sig]) == 0:
+                first_sig += 1
+            if len(self.m_elem) - first_sig > SubstratePathConst.INT_ELEM_MAX_DIGITS:
+                raise SubstratePathError(f"Invalid integer ({self.m_elem[first_sig:first_sig + 32]}...)")
+            elem_val: Union[int, str] = int(self.m_elem[first_sig:])
+            bit_len = elem_val.bit_length()
 
             # Find the correct scale encoder
             scale_enc = None
@@ -159,9 +170,10 @@ class SubstratePathElem:
         # String
         else:
             scale_enc = SubstrateScaleBytesEncoder
+            elem_val = self.m_elem
 
         # Encode element
-        enc_data = scale_enc.Encode(self.m_elem)
+        enc_data = scale_enc.Encode(elem_val)
 
         # Compute chain code
         max_len = SubstratePathConst.ENCODED_ELEM_MAX_BYTE_LEN
